@@ -528,7 +528,7 @@ impl GatewayBinder {
                 let proof = self.proof(&act["proof"], &act["data"]);
                 let args: SVec<Val> = svec![&env, self.cx.b32(&right).into_val(&env), proof.into_val(&env)];
                 let r = self.call_rooted(act, "validate_proof", args);
-                self.finish(r, |e, v| bool::try_from_val(e, v).map(|b| json!(b)).unwrap_or(json!("badret")))
+                self.finish(r, |e, v| bool::try_from_val(e, v).map(|b| json!(if b { "true" } else { "false" })).unwrap_or(json!("badret")))
             }
             "RotateSigners" => {
                 let new = jstr(act, "new");
@@ -557,7 +557,7 @@ impl GatewayBinder {
                     let args: SVec<Val> = svec![&env, caller.into_val(&env), chain.into_val(&env), id.into_val(&env), src.into_val(&env), ph.into_val(&env)];
                     self.call_rooted(act, "validate_message", args)
                 };
-                self.finish(r, |e, v| bool::try_from_val(e, v).map(|b| json!(b)).unwrap_or(json!("badret")))
+                self.finish(r, |e, v| bool::try_from_val(e, v).map(|b| json!(if b { "true" } else { "false" })).unwrap_or(json!("badret")))
             }
             "CallContract" => {
                 let caller_name = jstr(act, "caller");
